@@ -249,8 +249,35 @@ func oneRun(rng *rand.Rand, np, nops, procs int) []event {
 			tr.log(event{Ev: "ReturnEnd", P: 0})
 		}
 	})
+	// what the redraw callback does besides logging, by draw number: it may request a redraw itself
+	// (loop.go: "the callback may itself request a redraw") and it may take a while, so that requests
+	// of the producers land while it is running
+	cbReq := map[int]int{} // 1 redraw, 2 redraw full
+	cbSlow := map[int]time.Duration{}
+	for n := 0; n < 2; n++ {
+		if rng.Intn(3) != 0 {
+			cbReq[rng.Intn(6)] = 1 + rng.Intn(2)
+		}
+	}
+	for n := 0; n < 3; n++ {
+		cbSlow[rng.Intn(8)] = time.Duration(20+rng.Intn(300)) * time.Microsecond
+	}
+	ndraw := 0
 	lp.RedrawCb(func(flag uint) {
 		tr.log(event{Ev: "Draw", Full: flag&cli.VerifFullRedraw != 0, Final: flag&cli.VerifFinalRedraw != 0})
+		n := ndraw
+		ndraw++
+		if flag&cli.VerifFinalRedraw != 0 {
+			return
+		}
+		if d, ok := cbSlow[n]; ok {
+			time.Sleep(d)
+		}
+		if a := cbReq[n]; a != 0 {
+			tr.log(event{Ev: "RedrawStart", P: 0, Full: a == 2})
+			lp.Redraw(a == 2)
+			tr.log(event{Ev: "RedrawEnd", P: 0})
+		}
 	})
 	done := make(chan string, 1)
 	go func() {
